@@ -104,13 +104,16 @@ check('C16', 'cross-configuration comparison of the instantiated program (struct
       'Partial: transcript equality of whole programs and undiagnosed undefined behaviour are not decided.',
       'DESIGN.md section 4, C16')
 
-PENDING = ['C01','C02','C03','C04','C05','C06','C07','C08','C09','C10','C11','C13','C14','C15','C16','C18','C19','C20']
+check('C12', 'abstract interpretation of the insert_hint decision tree over the finite domain of orderings (value vs. up to three neighbours on each side of the hint, boundary flags), std::lower_bound given its specified result',
+      'Decides C12 for the ordering abstraction, exhaustively: for each of the 112 consistent orderings the action taken by insert_hint (return an iterator / insert at a position / search + epilogue / un-hinted insert) is the right one, and no invalid position is dereferenced; insert(hint,v), emplace_hint and insert(hint,node) all forward to it. The behaviour of insert_hint depends on the set, the hint and the value only through this abstraction, because it touches them only through comparator calls and iterator equality.',
+      'Assumes a strict weak ordering, a sorted duplicate-free set on entry (C03), and std::lower_bound / vector::insert as specified. A decision tree using constructs the interpreter does not model ends ANALYSIS-BROKEN.',
+      'DESIGN.md sections 6 and 10.5, C12')
+
+PENDING = []
 for p in PENDING:
     if p not in CHECKS:
         NA[p] = 'static check not registered yet in this revision (see DESIGN.md section 4 for the plan); nothing is claimed for it until its rules pass the both-ways self-test'
-NA['C12'] = ('hinted insertion equals plain insertion depends on the outcomes of comparator calls along each path of the decision tree; deciding it needs '
-             'path conditions interpreted in a theory of strict weak orders (symbolic execution + solver), a different technique family; no structural clause '
-             'is both specific to C12 and necessary (DESIGN.md section 6)')
+# C12 was listed as not applicable in the design; it is decided by abstract interpretation over the finite domain of orderings (DESIGN.md 10.5)
 
 def main():
     m = {
